@@ -271,6 +271,7 @@ func (e *regEnv) evalStmts(list []ast.Stmt) int {
 func runC07(c *core.Ctx) core.Meta {
 	c.Load(emuPkg, cuPkg, "amd/timing/wavefront", instsPkg)
 	c.BuildSSA()
+	checkEndedWavefrontReleasesRegisters(c)
 	prov := core.NewProv(c)
 
 	// ---------------- R07.7 register reads hand out their own bytes (fresh.go) ----------------
